@@ -3,8 +3,8 @@
 # (full check: Verus + Kani + witness escalation), 5 at a time. rc 0 = quiet, 1 = FALSE ALARM, 2 = undecided
 OUT=$1
 cd /verif
-for d in /tmp/seed/B*-out; do for k in 1 2 3; do [ -f $d/patch$k.diff ] && echo "$(basename $d -out) $k"; done; done | xargs -P 5 -L1 bash -c '
-  ID=$0; k=$1; SRC=/tmp/seed/$ID-out
+for d in $(ls -d /tmp/seed/B*-out 2>/dev/null || ls -d /verif/benign/B*); do for k in 1 2 3; do [ -f $d/patch$k.diff ] && echo "$(basename $d -out) $k"; done; done | xargs -P 5 -L1 bash -c '
+  ID=$0; k=$1; SRC=/tmp/seed/$ID-out; [ -d $SRC ] || SRC=/verif/benign/$ID
   PROP=$(python3 -c "import json;print(json.load(open(\"$SRC/meta.json\"))[\"property\"])")
   W=/tmp/bchkp/${ID}_$k; rm -rf $W; mkdir -p /tmp/bchkp
   git -C /repo worktree add -f $W HEAD -q 2>/dev/null || exit 0
